@@ -17,7 +17,7 @@ import (
 func init() {
 	register(&Prop{
 		ID:          "C10",
-		Explanation: "PARTIAL claim — decides the structural agreements a save/load round trip needs, not the round trip as behaviour: (1) each store encodes and decodes with the same compression flag constant and the same cipher source, the persistence layer saves, loads and clears under the same ticket field, and EncodeSessionState/DecodeSessionState mirror each other (marshal -> [lz4 iff flag] -> Encrypt versus Decrypt -> [lz4 iff flag] -> Unmarshal into the returned object); (2) every field of SessionState other than the two reviewed runtime helpers is serialised under a unique msgpack key; (3) the splitter and the loader derive part names through the same function with consecutive indices from 0, the loader prefers the unsplit cookie and otherwise joins the parts in index order onto a copy of part 0 named like the whole, and the splitter's chunks are consecutive slices cut at one point; (4) because the loader consults names a save of another size does not overwrite, the cookie store's Save reads the presented cookie jar and expires every presented session cookie (quoted name, optional _N suffix) it did not just write; (5) the split threshold constant is at most 4096 and every emitted chunk, and the unsplit cookie, was measured against it with len(cookie.String()); (6) Clear sweeps every presented session cookie and the ticket store's Clear deletes the stored session (shared with C11.R2/R3); (7) the ticket's cookie encoding and its two decoders agree on version tag, part count, part order and base64 alphabet; (8) the codec's compression plumbing uses no length-limited reader or copy in either direction and hands out compressed bytes only after the writer closed without error; (9) no function on the cookie store's load path (including Validate and the ciphers) tests a length against an upper bound. Round 4: the stored entry's TTL is Cookie.Expire handed unchanged from ticket.saveSession to the redis SET, so the entry lives as long as the cookie naming it (R10, shared with C09.R5). Round 5: the configured cookie-domain list is never reordered or written after validation, so later saves and clears address the cookies earlier saves set (R11, shared with C18.R5). Round 7: request handling keeps no state of its own between requests — no store, map update, in-place builtin, atomic/sync.Map write or pointer-receiver library call (singleflight, caches) reached from ServeHTTP targets a package-level variable, an object built at start-up, or a constructor variable captured by the handler it returned, declared in the packages implementing this property (RS; a class-wide who-may-write rule with zero instances today: a correct memoisation would be reported until reviewed). Round 8 (class-wide, P12): in the packages implementing this property every named error result that is used at all is examined — compared with nil, returned, stored or handed to a non-formatting function — unless the code validates the value result instead (RE; zero instances today).",
+		Explanation: "PARTIAL claim — decides the structural agreements a save/load round trip needs, not the round trip as behaviour: (1) each store encodes and decodes with the same compression flag constant and the same cipher source, the persistence layer saves, loads and clears under the same ticket field, and EncodeSessionState/DecodeSessionState mirror each other (marshal -> [lz4 iff flag] -> Encrypt versus Decrypt -> [lz4 iff flag] -> Unmarshal into the returned object); (2) every field of SessionState other than the two reviewed runtime helpers is serialised under a unique msgpack key; (3) the splitter and the loader derive part names through the same function with consecutive indices from 0, the loader prefers the unsplit cookie and otherwise joins the parts in index order onto a copy of part 0 named like the whole, and the splitter's chunks are consecutive slices cut at one point; (4) because the loader consults names a save of another size does not overwrite, the cookie store's Save reads the presented cookie jar and expires every presented session cookie (quoted name, optional _N suffix) it did not just write; (5) the split threshold constant is at most 4096 and every emitted chunk, and the unsplit cookie, was measured against it with len(cookie.String()); (6) Clear sweeps every presented session cookie and the ticket store's Clear deletes the stored session (shared with C11.R2/R3); (7) the ticket's cookie encoding and its two decoders agree on version tag, part count, part order and base64 alphabet; (8) the codec's compression plumbing uses no length-limited reader or copy in either direction and hands out compressed bytes only after the writer closed without error; (9) no function on the cookie store's load path (including Validate and the ciphers) tests a length against an upper bound. Round 4: the stored entry's TTL is Cookie.Expire handed unchanged from ticket.saveSession to the redis SET, so the entry lives as long as the cookie naming it (R10, shared with C09.R5). Round 5: the configured cookie-domain list is never reordered or written after validation, so later saves and clears address the cookies earlier saves set (R11, shared with C18.R5). Round 7: request handling keeps no state of its own between requests — no store, map update, in-place builtin, atomic/sync.Map write or pointer-receiver library call (singleflight, caches) reached from ServeHTTP targets a package-level variable, an object built at start-up, or a constructor variable captured by the handler it returned, declared in the packages implementing this property (RS; a class-wide who-may-write rule with zero instances today: a correct memoisation would be reported until reviewed). Round 8 (class-wide, P12): in the packages implementing this property every named error result that is used at all is examined — compared with nil, returned, stored or handed to a non-formatting function — unless the code validates the value result instead (RE; zero instances today). Part names of a split session are always name_i, the form Clear and the stale-cookie sweep select by (R12: KNOWN FINDING on the unchanged tree, defect 18).",
 		NotDecided:  "the round trip itself over all sizes and field contents (msgpack/lz4/AES value semantics), byte arithmetic at the split boundary, truncated part names for cookie names longer than 250 bytes, browser jar semantics (path/domain scoping, eviction), Redis behaviour.",
 		Run:         runC10,
 	})
